@@ -641,10 +641,20 @@ pub fn listen<S: ?Sized + AsRef<str>, H: crate::ConnectionHandler + Send + Sync 
                             // bytes yet: no need to wait for more input
                             continue;
                         }
-                        match br.fill_buf() {
-                            Err(_) => break,
-                            Ok([]) => break,
-                            _ => {}
+                        // wait for more input; a signal interrupting the read
+                        // is no reason to drop the connection
+                        let more = loop {
+                            match br.fill_buf() {
+                                Err(ref e) if e.kind() == ::std::io::ErrorKind::Interrupted => {
+                                    continue
+                                }
+                                Err(_) => break false,
+                                Ok([]) => break false,
+                                _ => break true,
+                            }
+                        };
+                        if !more {
+                            break;
                         }
                     }
                     Err(err) => {
